@@ -40,8 +40,16 @@ ASSUMPTIONS = [
     "quantized_relu with negative_slope*2^(bits-1)<1 excluded (C01-KF2: the "
     "saturation code itself is fractional); quantized_relu(use_sigmoid=1) only "
     "in the inference clause (no grid surrogate to be unbiased about)",
-    "po2: max_value a power of two, log2_rounding='rnd', no quadratic "
-    "approximation; inputs are 0 or 2^-20 <= |x| <= 256*top (below the keras "
+    "po2 quadratic_approximation=True: lattice = even exponents of the range "
+    "(largest exponent rounded down to even, lowest exponent -2^k is even), "
+    "max_value an even power of two inside it; adjacent codes are the two "
+    "neighbouring even powers 4^j <= |c| <= 4^(j+1), codes unchanged as usual; "
+    "magnitudes are 0 or inside [lowest code, top] (above top only when "
+    "max_value itself clips) because outside it the library clips the half "
+    "exponent before doubling, a range the docstring does not describe (C03); "
+    "the value-space mean is asserted literally (fails: C08-KF11) and, as the "
+    "clause the sampler is built for, E[sqrt|y|] = sqrt|c| (unbiased_sqrt)",
+    "po2: max_value a power of two, log2_rounding='rnd'; inputs are 0 or 2^-20 <= |x| <= 256*top (below the keras "
     "epsilon the library substitutes 2^min_exp, above 2^24*code the "
     "straight-through sum cancels: C03's findings); the clipped input is "
     "sign*clip(|x|, 2^min_exp, min(2^max_exp, max_value)), expectation in value "
@@ -79,7 +87,7 @@ REQUIRED_LABELS = {
         "tiny_elem", "binary_infer:rank1", "binary_infer:lastdim1",
         "binary_infer:lastdim_eq_rank", "binary_infer:lastdim_ne_rank",
         "binary_infer:rank2", "binary_infer:rank3", "binary_infer:rank4",
-        "threshold_probe", "wide_format", "zero_channel"]
+        "threshold_probe", "wide_format", "zero_channel", "po2_quad"]
     for t in ("quick", "thorough")}
 
 NDRAWS = {"quick": 2048, "thorough": 16384}
@@ -154,7 +162,8 @@ def _grid_reference(fam, cfg, xs):
   z = np.zeros_like(lo)
   return {"unit": 1.0, "c": r["c"], "lo": lo, "hi": hi, "lo_e": lo, "hi_e": hi,
           "eps": z, "half_ok": False, "sign_mode": False,
-          "clipped": r["mag"] != r["a"]}
+          "clipped": r["mag"] != r["a"], "quad": r["m"]["quad"],
+          "tie_factor": 4.0 if r["m"]["quad"] else 2.0}
 
 
 def _grid_train(fam, cfg, xs, d, ref, redraw):
@@ -184,7 +193,7 @@ def _grid_train(fam, cfg, xs, d, ref, redraw):
     dj = d[bad[:, j], j]
     cnt = int(dj.size)
     tie = bool(fam == "po2" and exact[j] and cnt <= 3 and
-               np.all(np.abs(dj) == 2.0 * abs(c[j])))
+               np.all(np.abs(dj) == ref.get("tie_factor", 2.0) * abs(c[j])))
     if (exact[j] and not clipped[j]) or tie:
       # an input that is a code (or is clipped onto the code max_value) must
       # come back unchanged in every draw
@@ -209,44 +218,60 @@ def _grid_train(fam, cfg, xs, d, ref, redraw):
   # unbiasedness on elements whose draws stay inside [lo,hi] (incl. half steps)
   inside = ((d >= lo_e[None]) & (d <= hi_e[None])).all(axis=0) & fin
   w = np.maximum(hi - lo, 0.0)
-  var = np.maximum((hi - c) * (c - lo), 0.0)
 
-  def mean_bad(dd, idx, nn):
-    mean = dd.mean(axis=0, dtype=np.float64)
-    tol = S.bern_tol(var[idx], nn, w[idx]) + eps[idx] + 1e-9 * np.maximum(1.0, np.abs(c[idx]))
-    return np.abs(mean - c[idx]) > tol, mean, tol
+  def mean_test(sub, tr, dT, cT, loT, hiT, epsT):
+    """|mean - c| against the Bernstein bound, in the space given by tr()."""
+    wT = np.maximum(hiT - loT, 0.0)
+    varT = np.maximum((hiT - cT) * (cT - loT), 0.0)
 
-  idx = np.nonzero(inside)[0]
-  if idx.size:
-    mb, mean, tol = mean_bad(d[:, idx], idx, n)
-    if mb.any():
-      sus = idx[mb]
-      gross = (np.abs(mean - c[idx]) > GROSS * tol)[mb]
-      d2 = None
-      if not gross.all():
-        d2 = redraw(sus[~gross], 8 * n)    # second, larger sample, other seed
+    def mean_bad(dd, idx, nn):
+      mean = dd.mean(axis=0, dtype=np.float64)
+      tol = S.bern_tol(varT[idx], nn, wT[idx]) + epsT[idx] + 1e-9 * np.maximum(1.0, np.abs(cT[idx]))
+      return np.abs(mean - cT[idx]) > tol, mean, tol
+
+    idx = np.nonzero(inside)[0]
+    if not idx.size:
+      return
+    mb, mean, tol = mean_bad(dT[:, idx], idx, n)
+    if not mb.any():
+      return
+    sus = idx[mb]
+    gross = (np.abs(mean - cT[idx]) > GROSS * tol)[mb]
+    d2 = None
+    if not gross.all():
+      d2 = redraw(sus[~gross], 8 * n)    # second, larger sample, other seed
       if d2 is not None:
-        mb2, mean2, tol2 = mean_bad(d2, sus[~gross], d2.shape[0])
-      t2 = 0
-      for t, j in enumerate(sus):
-        j = int(j)
-        if gross[t]:
-          m_, n_, tl_ = mean[mb][t], n, tol[mb][t]
-          det = bool(np.all(d[:, j] == d[0, j]))
-        else:
-          if d2 is None:
-            continue
-          k2 = t2
-          t2 += 1
-          if not mb2[k2]:
-            continue
-          m_, n_, tl_ = mean2[k2], d2.shape[0], tol2[k2]
-          det = bool(np.all(d2[:, k2] == d2[0, k2]))
-        p = (c[j] - lo[j]) / w[j] if w[j] else 0.0
-        fails.append(("unbiased", {"clause": "unbiased",
-                                   "kind": "deterministic" if det else "biased"},
-                      "x=%r clipped input at %r units (p=%.4f): mean of %d draws %r, "
-                      "tolerance %.3g" % (x[j], c[j], p, n_, m_, tl_), j))
+        d2 = tr(d2)
+    if d2 is not None:
+      mb2, mean2, tol2 = mean_bad(d2, sus[~gross], d2.shape[0])
+    t2 = 0
+    for t, j in enumerate(sus):
+      j = int(j)
+      if gross[t]:
+        m_, n_, tl_ = mean[mb][t], n, tol[mb][t]
+        det = bool(np.all(dT[:, j] == dT[0, j]))
+      else:
+        if d2 is None:
+          continue
+        k2 = t2
+        t2 += 1
+        if not mb2[k2]:
+          continue
+        m_, n_, tl_ = mean2[k2], d2.shape[0], tol2[k2]
+        det = bool(np.all(d2[:, k2] == d2[0, k2]))
+      p_ = (cT[j] - loT[j]) / wT[j] if wT[j] else 0.0
+      fails.append((sub, {"clause": sub, "kind": "deterministic" if det else "biased"},
+                    "x=%r clipped input at %r units (p=%.4f): mean of %d draws %r, "
+                    "tolerance %.3g" % (x[j], cT[j], p_, n_, m_, tl_), j))
+
+  mean_test("unbiased", lambda v: v, d, c, lo, hi, eps)
+  if ref.get("quad"):
+    # quadratic mode samples the exponent of sqrt|x| (stochastic_round_po2 is
+    # applied to sqrt|x|): what the code can and does satisfy is unbiasedness of
+    # sqrt|y|; asserted so that the sampler stays checkable in this mode
+    def sq(v):
+      return np.sign(v) * np.sqrt(np.abs(v))
+    mean_test("unbiased_sqrt", sq, sq(d), sq(c), sq(lo), sq(hi), eps)
   p = np.where(w > 0, (c - lo) / np.where(w > 0, w, 1.0), 0.0)
   stats = {"interior": bool(((p > 0.05) & (p < 0.95)).any()),
            "exact_code": bool((exact & ~clipped).any()),
@@ -668,6 +693,8 @@ def oracle(case):
     labels.append("zero_channel")
   if case.get("probe"):
     labels.append("threshold_probe")
+  if fam == "po2" and cfg["kw"].get("quadratic_approximation"):
+    labels.append("po2_quad")
   if fam == "fixed" and cfg["kw"].get("bits", 0) >= 16:
     labels.append("wide_format")
   nontrivial = stats.get("interior", False) and (stats.get("exact_code", False) or
